@@ -21,6 +21,7 @@
   vectored writes, write_from(_at), write_all_from, commit), by induction over the list.
 -/
 import Fbr.Lemmas.XportStart
+import Fbr.Lemmas.XportCThm
 import Fbr.Lemmas.SrvDirty
 
 namespace Fbr.Thm.C17
@@ -36,6 +37,21 @@ theorem dirty_superset (st : St) (ops : List Op) (h : Start st) :
 theorem dirty_subset (st : St) (ops : List Op) (h : Start st) :
     ∀ x ∈ (exec st ops).w.dirty, ∃ a ∈ wrAddrs (exec st ops).w.log, pageOf (exec st ops).w.p a = x :=
   (exec_inv ops (start_inv h)).w.dirty_sub
+
+/-- **Every modified byte is in a dirty page** (the property on memory CONTENT, what the
+    `C17:missed-dirty` oracle checks by diffing guest memory): after ANY operation list, a byte of
+    guest memory that differs from its value before the request lies in a page marked dirty — at
+    any address, in any region; and no region changed its size.  (`dirty_superset` speaks about
+    write accesses; this adds that nothing else ever changes memory.) -/
+theorem modified_bytes_are_dirty (st : St) (ops : List Op) (h : Start st)
+    (hr : ∀ b ∈ st.readers, WF st.w.mem b.segs) (hw : ∀ b ∈ st.writers, WF st.w.mem b.segs) :
+    (∀ a : Addr, (exec st ops).w.mem.byteAt a ≠ st.w.mem.byteAt a → pageOf (exec st ops).w.p a ∈ (exec st ops).w.dirty)
+    ∧ (∀ x, ((exec st ops).w.mem.get x).length = (st.w.mem.get x).length) := by
+  refine ⟨?_, (exec_cinv ops (start_cinv h hr hw)).len⟩
+  intro a hne
+  by_cases hm : a ∈ wrAddrs (exec st ops).w.log
+  · exact dirty_superset st ops h a hm
+  · exact absurd (exec_frame_log ops (start_cinv h hr hw) (fun _ _ => rfl) a hm) hne
 
 /-- Request (readable) descriptors stay clean unless they share a page with reply space: every
     dirty page contains an address of a *writable* descriptor, one that the server wrote. -/
